@@ -5,7 +5,7 @@
 package cache
 
 // Every function under contract in this package also serves the properties that depend on the whole package.
-//@ package-props C01 C02 C03 C04 C05 C08 C14 C15 C12
+//@ package-props C01 C02 C03 C04 C05 C07 C08 C14 C15 C12
 
 // The clock is a package variable holding a function. nowval is "the clock
 // reading during this call" (one arbitrary instant per call).
@@ -253,6 +253,8 @@ package cache
 //@     && Cnt(t) == 1 && NU(t) == 1 && NE(t) == 0
 //@   ensures [updates-then-deletes C03 C01] !n.Atomic ==> updSteps == old(updSteps) + old(len(n.Update)) && delSteps == old(delSteps) + old(len(n.Delete))
 //@   ensures [atomic-is-one-step C03 C01] n.Atomic && len(n.Delete) == 0 ==> updSteps == old(updSteps) + ite(len(n.Update) > 0, 1, 0) && delSteps == old(delSteps)
+//@   assert at call (*Target).gnmiUpdate#1: [each-split-update-is-stored-as-a-copy-of-its-own C03 C07] arg1 != nil && fresh(arg1) && arg1 != n && (arg1.Prefix != nil ==> fresh(arg1.Prefix)) && arg1.Timestamp == n.Timestamp
+//@   assert at call (*Target).gnmiRemove#0: [each-split-delete-is-announced-from-a-copy-of-its-own C03 C07] arg1 != nil && fresh(arg1) && arg1 != n && (arg1.Prefix != nil ==> fresh(arg1.Prefix)) && arg1.Timestamp == n.Timestamp
 //@   ensures [an-empty-notification-is-counted-as-empty C15] old(len(n.Update)) == 0 && old(len(n.Delete)) == 0 ==> res0 == nil && NE(t) == 1 && Cnt(t) == 0
 //@   ensures [nothing-else-is-counted-as-empty C15] old(len(n.Update)) + old(len(n.Delete)) > 0 ==> NE(t) == 0
 //@   ensures [an-accepted-single-update-is-updated-or-suppressed C15] old(Single(n)) && res0 == nil ==> Cnt(t) == 1 && NU(t) + Added(t, "targetLeavesSuppressed") == 1
@@ -592,3 +594,42 @@ package cache
 //@   requires size != nil
 //@   modifies captured s
 //@   ensures res0 == nil
+
+// ---- options: each option sets exactly its own field of the option record -------------------------
+//@ func WithFutureThreshold$1
+//@   props C02 C12
+//@   requires o != nil
+//@   modifies o.futureThreshold
+//@   ensures [threshold-as-given C02] o.futureThreshold == futureThreshold
+//@ func WithAvgLatencyPrecision$1
+//@   props C15 C12
+//@   requires o != nil
+//@   modifies o.avgLatencyPrecision
+//@   ensures [precision-as-given C15] o.avgLatencyPrecision == avgLatencyPrecision
+//@ func WithServerName$1
+//@   props C15 C12
+//@   requires o != nil
+//@   modifies o.serverName
+//@   ensures [name-as-given C15] o.serverName == serverName
+//@ func DisableEventDrivenEmulation$1
+//@   props C03 C12
+//@   requires o != nil
+//@   modifies o.DisableEventDriven
+//@   ensures [emulation-off C03] o.DisableEventDriven
+//@ func WithLatencyWindows$1
+//@   props C15 C12
+//@   requires o != nil
+//@   modifies o.latencyWindows
+//@   ensures [windows-as-parsed C15] o.latencyWindows == windows
+//@ func WithFutureThreshold
+//@   props C02 C12
+//@   ensures res0 != nil
+//@ func WithAvgLatencyPrecision
+//@   props C15 C12
+//@   ensures res0 != nil
+//@ func WithServerName
+//@   props C15 C12
+//@   ensures res0 != nil
+//@ func DisableEventDrivenEmulation
+//@   props C03 C12
+//@   ensures res0 != nil
